@@ -335,9 +335,10 @@ theorem c13_findByKey (m : List (Int × Int)) (fn : Int → Bool) :
   simp only [Gen.Funcs.FindByKey]
   exact c13_findByKey_loop m fn m
 
-theorem findMinByKey_loop (s0 : List (List (Int × Int))) (key : Int) (s : List (List (Int × Int))) (i mn : Int) :
-    Gen.Funcs.FindMinByKey.loop1 s0 key s i mn = Model.C13.minByKeyLoop key s mn := by
-  induction s generalizing i mn with
+theorem findMinByKey_loop (s0 : List (List (Int × Int))) (key : Int) (s : List (List (Int × Int))) (i : Int)
+    (found : Bool) (mn : Int) :
+    Gen.Funcs.FindMinByKey.loop1 s0 key s i (found, mn) = Model.C13.minByKeyLoop key s found mn := by
+  induction s generalizing i found mn with
   | nil => rfl
   | cons m r ih =>
     simp only [Gen.Funcs.FindMinByKey.loop1, Model.C13.minByKeyLoop, c13_findByKey, c13_mapHas, c13_mapGet]
@@ -346,11 +347,14 @@ theorem findMinByKey_loop (s0 : List (List (Int × Int))) (key : Int) (s : List 
     rw [hfn]
     cases h : Model.C13.mapGet key (Model.C13.FindByKey (fun k => k == key) m) with
     | none => simp [ih]
-    | some v => by_cases hv : v < mn <;> simp [hv, ih]
+    | some v =>
+      simp only [Option.isSome_some, if_true, Option.getD_some]
+      by_cases hc : (!found || decide (v < mn)) = true <;> simp [hc, ih]
 
-theorem findMaxByKey_loop (s0 : List (List (Int × Int))) (key : Int) (s : List (List (Int × Int))) (i mx : Int) :
-    Gen.Funcs.FindMaxByKey.loop1 s0 key s i mx = Model.C13.maxByKeyLoop key s mx := by
-  induction s generalizing i mx with
+theorem findMaxByKey_loop (s0 : List (List (Int × Int))) (key : Int) (s : List (List (Int × Int))) (i : Int)
+    (found : Bool) (mx : Int) :
+    Gen.Funcs.FindMaxByKey.loop1 s0 key s i (found, mx) = Model.C13.maxByKeyLoop key s found mx := by
+  induction s generalizing i found mx with
   | nil => rfl
   | cons m r ih =>
     simp only [Gen.Funcs.FindMaxByKey.loop1, Model.C13.maxByKeyLoop, c13_findByKey, c13_mapHas, c13_mapGet]
@@ -359,7 +363,9 @@ theorem findMaxByKey_loop (s0 : List (List (Int × Int))) (key : Int) (s : List 
     rw [hfn]
     cases h : Model.C13.mapGet key (Model.C13.FindByKey (fun k => k == key) m) with
     | none => simp [ih]
-    | some v => by_cases hv : v > mx <;> simp [hv, ih]
+    | some v =>
+      simp only [Option.isSome_some, if_true, Option.getD_some]
+      by_cases hc : (!found || decide (v > mx)) = true <;> simp [hc, ih]
 
 /-- the model answers `(isErr, value)`; the regenerated function answers `Exc.err` or the value -/
 def ofErrPair : Bool × Int → Res Int
@@ -371,26 +377,25 @@ theorem findMinByKey_tie (s : List (List (Int × Int))) (key : Int) :
   cases s with
   | nil => rfl
   | cons m0 r =>
-    simp only [Gen.Funcs.FindMinByKey, Model.C13.FindMinByKey, c13_mapHas, c13_mapGet]
-    cases h : Model.C13.mapGet key m0 with
-    | none => simp [ofErrPair]
-    | some v0 => simp [ofErrPair, findMinByKey_loop]
+    simp only [Gen.Funcs.FindMinByKey, Model.C13.FindMinByKey, findMinByKey_loop]
+    cases h : Model.C13.minByKeyLoop key (m0 :: r) false 0 with
+    | mk f v => cases f <;> simp [ofErrPair]
 
 theorem findMaxByKey_tie (s : List (List (Int × Int))) (key : Int) :
     Gen.Funcs.FindMaxByKey s key = ofErrPair (Model.C13.FindMaxByKey s key) := by
   cases s with
   | nil => rfl
   | cons m0 r =>
-    simp only [Gen.Funcs.FindMaxByKey, Model.C13.FindMaxByKey, c13_mapHas, c13_mapGet]
-    cases h : Model.C13.mapGet key m0 with
-    | none => simp [ofErrPair]
-    | some v0 => simp [ofErrPair, findMaxByKey_loop]
+    simp only [Gen.Funcs.FindMaxByKey, Model.C13.FindMaxByKey, findMaxByKey_loop]
+    cases h : Model.C13.maxByKeyLoop key (m0 :: r) false 0 with
+    | mk f v => cases f <;> simp [ofErrPair]
 
 /-- `ToSlice(args...)`: `make([]T, 0, len(args))` then `append(slice, args...)` = the arguments -/
 theorem toSlice_tie (args : List Int) : Gen.Funcs.ToSlice args = args := by
   simp [Gen.Funcs.ToSlice]
 
 example : Gen.Funcs.FindMinByKey [[(1, 5), (2, 9)], [(2, 3)], [(1, 4)]] 2 = Except.ok 3 := by rfl
-example : Gen.Funcs.FindMinByKey [[(1, 5)], [(2, 3)]] 2 = Except.error Exc.err := by rfl
+example : Gen.Funcs.FindMinByKey [[(1, 5)], [(2, 3)]] 2 = Except.ok 3 := by rfl   -- the first map lacks the key (F44)
+example : Gen.Funcs.FindMinByKey [[(1, 5)], [(3, 3)]] 2 = Except.error Exc.err := by rfl
 
 end GoguVerif.Theorems.GenTieMore
